@@ -127,6 +127,19 @@ SG = "qats/signal.py"
 # the Tukey window of `taper` (rising and falling cosine flanks; the flat part is the literal 1)
 anchor("tk_rise", "alpha i window_len", SG, "taper", ("assign", "w[i]", 0), inline=[])
 anchor("tk_fall", "alpha i window_len", SG, "taper", ("assign", "w[i]", 2), inline=[])
+# the normalised cut-off frequencies handed to scipy.signal.butter by the four frequency filters (second positional argument;
+# the locals `nyq` / `normal_cutoff` are inlined, so the generated definition is an expression in `dt` and the cut-offs in Hz)
+anchor("flt_lp_wn", "dt fc", SG, "lowpass", ("callarg", r"(?:\w+\.)*butter", 0, 1))
+anchor("flt_hp_wn", "dt fc", SG, "highpass", ("callarg", r"(?:\w+\.)*butter", 0, 1))
+anchor("flt_bp_wn1", "dt flow fupp", SG, "bandpass", ("callarg_elt", r"(?:\w+\.)*butter", 0, 1, 0))
+anchor("flt_bp_wn2", "dt flow fupp", SG, "bandpass", ("callarg_elt", r"(?:\w+\.)*butter", 0, 1, 1))
+anchor("flt_bs_wn1", "dt flow fupp", SG, "bandblock", ("callarg_elt", r"(?:\w+\.)*butter", 0, 1, 0))
+anchor("flt_bs_wn2", "dt flow fupp", SG, "bandblock", ("callarg_elt", r"(?:\w+\.)*butter", 0, 1, 1))
+# the sampling frequency handed to scipy.signal.welch by `signal.psd`, and the default segment length of `TimeSeries.psd`
+# (the argument of `int(...)`, with the number of samples `x.size` as the parameter `n`)
+anchor("psd_fs", "dt", SG, "psd", ("callkw", r"(?:\w+\.)*welch", 0, "fs"))
+anchor("psd_nperseg_frac", "n", "qats/ts.py", "TimeSeries.psd", [("callarg", r"int", 0, 0), ("assign", "nperseg", 0)], inline=[],
+       rename={"x.size": "n", "np.size(x)": "n", "len(x)": "n"})
 MO = "qats/motions.py"
 for _i in range(3):
     for _j in range(3):
@@ -297,6 +310,33 @@ def pick_expr(fn, pick):
         if len(uniq) <= k or len(uniq[k][1].args) <= i:
             raise TranslateError("call #%d of %s not found" % (k, fname))
         return uniq[k][0], uniq[k][1].args[i]
+    if kind == "callkw":
+        # keyword argument `kw` of the k-th call of the function:  ("callkw", fname, k, kw)
+        fname, k, kw = pick[1], pick[2], pick[3]
+        hits, seen = [], set()
+        for s in st:
+            if isinstance(s, (ast.FunctionDef, ast.ClassDef)):
+                continue
+            roots = [getattr(s, f) for f in ("test", "iter") if isinstance(getattr(s, f, None), ast.AST)] if hasattr(s, "body") else [s]
+            for root in roots:
+                for n in ast.walk(root):
+                    if isinstance(n, ast.Call) and re.fullmatch(fname, norm(ast.unparse(n.func))) and id(n) not in seen:
+                        seen.add(id(n))
+                        hits.append((s, n))
+        if len(hits) <= k:
+            raise TranslateError("call #%d of %s not found" % (k, fname))
+        for a in hits[k][1].keywords:
+            if a.arg == kw:
+                return hits[k][0], a.value
+        raise TranslateError("keyword %s of call #%d of %s not found" % (kw, k, fname))
+    if kind == "callarg_elt":
+        # element j of the tuple / list given as i-th argument of the k-th call of the function (a local name is looked up)
+        s0, v = pick_expr(fn, ("callarg", pick[1], pick[2], pick[3]))
+        if isinstance(v, ast.Name):
+            v = local_env(fn, s0).get(v.id, v)
+        if isinstance(v, (ast.Tuple, ast.List)) and len(v.elts) > pick[4]:
+            return s0, v.elts[pick[4]]
+        raise TranslateError("element %d of argument %d of call #%d of %s not found" % (pick[4], pick[3], pick[2], pick[1]))
     raise TranslateError("bad pick " + repr(pick))
 
 
